@@ -22,6 +22,8 @@ import (
 var knownInvTxt string
 
 type invFunc struct{ pkg, name, sig string }
+type invConst struct{ pkg, name, ty, val string }
+type invType struct{ pkg, name, fp string }
 type invField struct {
 	pkg, typ string
 	idx      int
@@ -31,6 +33,8 @@ type invField struct {
 var (
 	invFuncs  []invFunc
 	invFields []invField
+	invConsts []invConst
+	invTypes  []invType
 )
 
 func init() {
@@ -39,6 +43,10 @@ func init() {
 		switch {
 		case len(f) == 4 && f[0] == "F":
 			invFuncs = append(invFuncs, invFunc{f[1], f[2], f[3]})
+		case len(f) == 4 && f[0] == "T":
+			invTypes = append(invTypes, invType{f[1], f[2], f[3]})
+		case len(f) == 5 && f[0] == "K":
+			invConsts = append(invConsts, invConst{f[1], f[2], f[3], f[4]})
 		case len(f) == 6 && f[0] == "S":
 			var idx int
 			fmt.Sscan(f[3], &idx)
@@ -135,8 +143,18 @@ func InventoryLines(pkgs []*packages.Package) []string {
 			if !ok {
 				continue
 			}
-			for i := 0; i < st.NumFields(); i++ {
-				out = append(out, fmt.Sprintf("S\t%s\t%s\t%d\t%s\t%s", pk.PkgPath, tn.Name(), i, st.Field(i).Name(), types.TypeString(st.Field(i).Type(), fullQual)))
+			walkStruct(st, tn.Name(), 0, func(owner string, i int, f *types.Var) {
+				out = append(out, fmt.Sprintf("S\t%s\t%s\t%d\t%s\t%s", pk.PkgPath, owner, i, f.Name(), types.TypeString(types.Unalias(f.Type()), fullQual)))
+			})
+		}
+		for _, nm := range sc.Names() {
+			if tn, ok := sc.Lookup(nm).(*types.TypeName); ok && !tn.IsAlias() {
+				out = append(out, fmt.Sprintf("T\t%s\t%s\t%s", pk.PkgPath, tn.Name(), typeFingerprint(tn)))
+			}
+		}
+		for _, nm := range sc.Names() {
+			if k, ok := sc.Lookup(nm).(*types.Const); ok {
+				out = append(out, fmt.Sprintf("K\t%s\t%s\t%s\t%s", pk.PkgPath, k.Name(), types.TypeString(k.Type(), fullQual), k.Val().ExactString()))
 			}
 		}
 	}
@@ -144,13 +162,52 @@ func InventoryLines(pkgs []*packages.Package) []string {
 	return out
 }
 
+// typeFingerprint describes a named type independently of its own name: the
+// underlying type (with the type's name blanked) and its method names.
+func typeFingerprint(tn *types.TypeName) string {
+	self := tn.Name()
+	qual := func(p *types.Package) string { return p.Path() }
+	u := types.TypeString(tn.Type().Underlying(), qual)
+	full := ""
+	if tn.Pkg() != nil {
+		full = tn.Pkg().Path() + "." + self
+	}
+	if full != "" {
+		u = strings.ReplaceAll(u, full, "·")
+	}
+	var ms []string
+	if n, ok := tn.Type().(*types.Named); ok {
+		for i := 0; i < n.NumMethods(); i++ {
+			ms = append(ms, n.Method(i).Name())
+		}
+	}
+	sort.Strings(ms)
+	return u + " {" + strings.Join(ms, ",") + "}"
+}
+
+// walkStruct visits the fields of a struct and of the anonymous struct types
+// nested in it; owner is "Type" or "Type.field.field".
+func walkStruct(st *types.Struct, owner string, depth int, visit func(owner string, i int, f *types.Var)) {
+	for i := 0; i < st.NumFields(); i++ {
+		f := st.Field(i)
+		visit(owner, i, f)
+		if inner, ok := f.Type().(*types.Struct); ok && depth < 4 {
+			walkStruct(inner, owner+"."+f.Name(), depth+1, visit)
+		}
+	}
+}
+
 // Renames maps renamed entities back to their inventory names.
 type Renames struct {
-	Funcs    map[string]*types.Func // "pkg\tOldName" -> renamed function
-	Fields   map[string]*types.Var  // "pkg\tType\toldField" -> renamed field
-	CanonF   map[*types.Func]string // renamed function -> old simple name (method or function name)
-	CanonV   map[*types.Var]string  // renamed field -> old name
-	NewNames map[string]bool        // "pkg\tRecv.new" keys that are renames (not new helpers)
+	Funcs    map[string]*types.Func     // "pkg\tOldName" -> renamed function
+	Fields   map[string]*types.Var      // "pkg\tType\toldField" -> renamed field
+	Consts   map[string]*types.Const    // "pkg\toldName" -> renamed constant
+	Types    map[string]*types.TypeName // "pkg\toldName" -> renamed type
+	CanonT   map[*types.TypeName]string // renamed type -> old name
+	CanonF   map[*types.Func]string     // renamed function -> old simple name (method or function name)
+	CanonV   map[*types.Var]string      // renamed field -> old name
+	NewNames map[string]bool            // "pkg\tRecv.new" keys that are renames (not new helpers)
+	RecvOld  map[string]string          // "pkg\tNewTypeName" -> inventory name of the type
 	Notes    []string
 }
 
@@ -177,7 +234,7 @@ func CanonName(o types.Object) string {
 
 // FindRenames compares the loaded packages with the inventory.
 func FindRenames(pkgs []*packages.Package) *Renames {
-	r := &Renames{Funcs: map[string]*types.Func{}, Fields: map[string]*types.Var{}, CanonF: map[*types.Func]string{}, CanonV: map[*types.Var]string{}, NewNames: map[string]bool{}}
+	r := &Renames{RecvOld: map[string]string{}, Types: map[string]*types.TypeName{}, CanonT: map[*types.TypeName]string{}, Consts: map[string]*types.Const{}, Funcs: map[string]*types.Func{}, Fields: map[string]*types.Var{}, CanonF: map[*types.Func]string{}, CanonV: map[*types.Var]string{}, NewNames: map[string]bool{}}
 	invByPkg := map[string][]invFunc{}
 	for _, f := range invFuncs {
 		invByPkg[f.pkg] = append(invByPkg[f.pkg], f)
@@ -190,6 +247,58 @@ func FindRenames(pkgs []*packages.Package) *Renames {
 		if pk.Types == nil {
 			continue
 		}
+		// renamed types: same structure and method names under a new name
+		{
+			sc := pk.Types.Scope()
+			var inv []invType
+			known := map[string]bool{}
+			for _, t := range invTypes {
+				if t.pkg == pk.PkgPath {
+					inv = append(inv, t)
+					known[t.name] = true
+				}
+			}
+			for _, m := range inv {
+				if sc.Lookup(m.name) != nil {
+					continue
+				}
+				var cands []*types.TypeName
+				for _, nm := range sc.Names() {
+					tn, ok := sc.Lookup(nm).(*types.TypeName)
+					if !ok || tn.IsAlias() || known[tn.Name()] {
+						continue
+					}
+					if typeFingerprint(tn) == m.fp {
+						cands = append(cands, tn)
+					}
+				}
+				same := 0
+				for _, m2 := range inv {
+					if sc.Lookup(m2.name) == nil && m2.fp == m.fp {
+						same++
+					}
+				}
+				if len(cands) == 1 && same == 1 {
+					r.Types[pk.PkgPath+"\t"+m.name] = cands[0]
+					r.CanonT[cands[0]] = m.name
+					r.RecvOld[pk.PkgPath+"\t"+cands[0].Name()] = m.name
+					r.Notes = append(r.Notes, fmt.Sprintf("%s.%s is type %s renamed (same structure and methods)", pk.PkgPath, cands[0].Name(), m.name))
+				}
+			}
+		}
+		canonRecv := func(name string) string {
+			// "Recv.method" with the receiver's inventory name
+			i := strings.Index(name, ".")
+			if i < 0 {
+				return name
+			}
+			if tn, ok := pk.Types.Scope().Lookup(name[:i]).(*types.TypeName); ok {
+				if old, ok := r.CanonT[tn]; ok {
+					return old + name[i:]
+				}
+			}
+			return name
+		}
 		inv := invByPkg[pk.PkgPath]
 		if len(inv) > 0 {
 			known := map[string]invFunc{}
@@ -198,7 +307,7 @@ func FindRenames(pkgs []*packages.Package) *Renames {
 			}
 			cur := map[string]*types.Func{}
 			for _, f := range declaredFuncs(pk.Types) {
-				cur[funcName(f)] = f
+				cur[canonRecv(funcName(f))] = f
 			}
 			var missing []invFunc
 			for _, f := range inv {
@@ -222,7 +331,7 @@ func FindRenames(pkgs []*packages.Package) *Renames {
 				var cands []*types.Func
 				for _, e := range extra {
 					sig, _ := e.Type().(*types.Signature)
-					if sig == nil || recvOf(funcName(e)) != recvOf(m.name) || sigString(sig) != m.sig {
+					if sig == nil || recvOf(canonRecv(funcName(e))) != recvOf(m.name) || sigString(sig) != m.sig {
 						continue
 					}
 					cands = append(cands, e)
@@ -257,40 +366,84 @@ func FindRenames(pkgs []*packages.Package) *Renames {
 			if !ok {
 				continue
 			}
-			inv := fldByType[pk.PkgPath+"\t"+tn.Name()]
-			if len(inv) == 0 {
-				continue
-			}
-			known := map[string]bool{}
-			for _, f := range inv {
-				known[f.name] = true
-			}
-			cur := map[string]*types.Var{}
-			for i := 0; i < st.NumFields(); i++ {
-				cur[st.Field(i).Name()] = st.Field(i)
-			}
-			for _, m := range inv {
-				if _, ok := cur[m.name]; ok {
+			// current fields per owner ("Type", "Type.nested")
+			curBy := map[string][]*types.Var{}
+			walkStruct(st, tn.Name(), 0, func(owner string, i int, f *types.Var) {
+				curBy[owner] = append(curBy[owner], f)
+			})
+			for owner, fields := range curBy {
+				inv := fldByType[pk.PkgPath+"\t"+owner]
+				if len(inv) == 0 {
 					continue
 				}
-				var cands []*types.Var
-				for i := 0; i < st.NumFields(); i++ {
-					f := st.Field(i)
-					if known[f.Name()] || types.TypeString(f.Type(), fullQual) != m.ty {
+				known := map[string]bool{}
+				for _, f := range inv {
+					known[f.name] = true
+				}
+				cur := map[string]*types.Var{}
+				for _, f := range fields {
+					cur[f.Name()] = f
+				}
+				for _, m := range inv {
+					if _, ok := cur[m.name]; ok {
 						continue
 					}
-					cands = append(cands, f)
+					var cands []*types.Var
+					for _, f := range fields {
+						if known[f.Name()] || types.TypeString(types.Unalias(f.Type()), fullQual) != m.ty {
+							continue
+						}
+						cands = append(cands, f)
+					}
+					same := 0
+					for _, m2 := range inv {
+						if _, ok := cur[m2.name]; !ok && m2.ty == m.ty {
+							same++
+						}
+					}
+					if len(cands) == 1 && same == 1 {
+						r.Fields[pk.PkgPath+"\t"+owner+"\t"+m.name] = cands[0]
+						r.CanonV[cands[0].Origin()] = m.name
+						r.Notes = append(r.Notes, fmt.Sprintf("%s.%s.%s is field %s renamed (same struct and type)", pk.PkgPath, owner, cands[0].Name(), m.name))
+					}
+				}
+			}
+		}
+		// constants: same type and value under a new name
+		{
+			var inv []invConst
+			for _, k := range invConsts {
+				if k.pkg == pk.PkgPath {
+					inv = append(inv, k)
+				}
+			}
+			known := map[string]bool{}
+			for _, k := range inv {
+				known[k.name] = true
+			}
+			for _, m := range inv {
+				if sc.Lookup(m.name) != nil {
+					continue
+				}
+				var cands []*types.Const
+				for _, nm := range sc.Names() {
+					k, ok := sc.Lookup(nm).(*types.Const)
+					if !ok || known[k.Name()] {
+						continue
+					}
+					if types.TypeString(k.Type(), fullQual) == m.ty && k.Val().ExactString() == m.val {
+						cands = append(cands, k)
+					}
 				}
 				same := 0
 				for _, m2 := range inv {
-					if _, ok := cur[m2.name]; !ok && m2.ty == m.ty {
+					if sc.Lookup(m2.name) == nil && m2.ty == m.ty && m2.val == m.val {
 						same++
 					}
 				}
 				if len(cands) == 1 && same == 1 {
-					r.Fields[pk.PkgPath+"\t"+tn.Name()+"\t"+m.name] = cands[0]
-					r.CanonV[cands[0].Origin()] = m.name
-					r.Notes = append(r.Notes, fmt.Sprintf("%s.%s.%s is field %s renamed (same struct and type)", pk.PkgPath, tn.Name(), cands[0].Name(), m.name))
+					r.Consts[pk.PkgPath+"\t"+m.name] = cands[0]
+					r.Notes = append(r.Notes, fmt.Sprintf("%s.%s is constant %s renamed (same type and value)", pk.PkgPath, cands[0].Name(), m.name))
 				}
 			}
 		}
